@@ -205,9 +205,11 @@ func genRepeats(r *RNG, parents, m, maxLabels int) []string {
 }
 
 // genDeep: caterpillars / prefix chains.
-func genDeep(r *RNG, depth int) []string {
+func genDeep(r *RNG, depth int) []string { return genDeepStyle(r, depth, r.Intn(4)) }
+
+func genDeepStyle(r *RNG, depth int, style int) []string {
 	var out []string
-	switch r.Intn(4) {
+	switch style {
 	case 0: // prefix chain: every key is a prefix of the next
 		c := randAlphabet(r, 1, 3)
 		s := ""
@@ -288,6 +290,44 @@ func genLong(r *RNG, maxLen int) []string {
 		}
 	}
 	out = append(out, base)
+	kept := out[:0]
+	for _, k := range out {
+		if len(k) <= maxLen {
+			kept = append(kept, k)
+		}
+	}
+	return sortUniq(kept)
+}
+
+// genDenseAlpha: (nearly) all strings of length d over an alphabet of a bytes,
+// a in 11..16: every node down to depth d-1 sees more than 10 labels, so the
+// breadth-first prefix of 257-bit nodes is long (a^0 + ... + a^(d-1) nodes:
+// 273 for a=16,d=3; 4369 for a=16,d=4).
+func genDenseAlpha(r *RNG, a, d int, dropPermille int) []string {
+	p := r.Perm(256)[:a]
+	sort.Ints(p)
+	alpha := make([]byte, a)
+	for i, x := range p {
+		alpha[i] = byte(x)
+	}
+	if r.Chance(1, 3) {
+		// make sure 0x00 and 0xff are labels of the big nodes
+		alpha[0], alpha[a-1] = 0x00, 0xff
+	}
+	var out []string
+	var rec func(prefix []byte, depth int)
+	rec = func(prefix []byte, depth int) {
+		if depth == d {
+			if r.Intn(1000) >= dropPermille {
+				out = append(out, string(prefix))
+			}
+			return
+		}
+		for _, c := range alpha {
+			rec(append(prefix, c), depth+1)
+		}
+	}
+	rec(nil, 0)
 	return sortUniq(out)
 }
 
@@ -326,7 +366,12 @@ func genKeySet(r *RNG, scale int) KeySet {
 		}
 		ks = KeySet{"repeats", genRepeats(r, parents, r.Range(1, 12), r.Range(2, 5))}
 	case f < 16:
-		ks = KeySet{"deep", genDeep(r, r.Range(3, maxDeep))}
+		if r.Chance(1, 3) && scale != 2 {
+			a := r.Range(11, 16)
+			ks = KeySet{"dense-alpha", genDenseAlpha(r, a, 3, r.Intn(100))}
+		} else {
+			ks = KeySet{"deep", genDeep(r, r.Range(3, maxDeep))}
+		}
 	case f < 18:
 		maxLen := 2000
 		if r.Chance(1, 4) {
